@@ -43,7 +43,8 @@ Inductive value :=
 | VTerm (cause : N)                    (* TerminationStatistics(statistics, TerminationCause(cause)) *)
 | VBytes (l : list N)                  (* a bytes object *)
 | VText (l : list N)                   (* a str that is data: its code points *)
-| VList (l : list value).              (* a list, or a tuple that is not a pair *)
+| VList (l : list value)               (* a list, or a tuple that is not a pair; also a set given in its iteration order *)
+| VDict (l : list (value * value)).    (* a dict: its items in insertion order (keys: ints or data strings) *)
 
 Inductive attr := A_memory_width | A_garbage_handling.     (* Reader.memory_width, Reader.garbage_handling *)
 
@@ -69,7 +70,10 @@ Inductive fname :=
 | F_w_validate_segment_not_overlapping | F_w_update_to_relative_jumps | F_w_get_segment_addresses_repr
 | F_w_write_to_file
 | P_file_open | P_file_write                (* `with open(path, 'wb') as f` / f.write(b): the output stream is the file *)
-| P_compress_data.                          (* Writer._compress_data(b): lzma as an oracle, LZMAError -> the library error *)
+| P_compress_data                           (* Writer._compress_data(b): lzma as an oracle, LZMAError -> the library error *)
+(* breakpoint resolution (C16): the three update_breakpoints_* functions of debugging/breakpoints.py; print *)
+| F_bp_from_addresses | F_bp_from_contains | F_bp_from_labels
+| P_print.
 
 (* the target of a `for` / comprehension: a name or a tuple of targets *)
 Inductive pattern := PVar (x : ident) | PTuple (l : list pattern).
@@ -111,7 +115,12 @@ Inductive expr :=
 | EHex (a : expr)                      (* hex(a) of an int *)
 | EDictGet (l : list (N * N)) (k : expr) (* {k1: v1, ..}[k] on a display with int constants; KeyError when k is missing *)
 | EPack (sizes : list nat) (args : expr)       (* struct.pack('<..', *args): one unsigned little-endian field per size *)
-| EPackN (count size args : expr).     (* struct.pack(f'<{count}{code of size}', *args) *)
+| EPackN (count size args : expr)      (* struct.pack(f'<{count}{code of size}', *args) *)
+| EIn (a b : expr)                     (* a in b : key of a dict / substring of a data string *)
+| ETupleOf (a : expr)                  (* tuple(a) / list(a): the keys of a dict in insertion order, the elements of a list *)
+| EReverse (a : expr)                  (* a[::-1] on a list *)
+| ETextLit (l : list N)                (* a string literal that is data: its code points *)
+| EJoinText (a : expr).                (* an f-string whose text matters: a display of data strings, concatenated *)
 
 Inductive exn :=
 | XKeyError                            (* KeyError of a dict read *)
@@ -145,7 +154,9 @@ Inductive stmt :=
 | SFieldAppend (f : ident) (e : expr)              (* self.<f>.append(e) *)
 | SFor (p : pattern) (it : expr) (body : stmt)     (* for p in it: body   (no break / else) *)
 | SContinue                                        (* continue *)
-| SFieldItemSet (f : ident) (k v : expr).          (* self.<f>[k] = v    on a list owned by the attribute *)
+| SFieldItemSet (f : ident) (k v : expr)           (* self.<f>[k] = v    on a list owned by the attribute *)
+| SVarItemSet (x : ident) (k v : expr).            (* x[k] = v   on a dict held by the variable x (a parameter that is never
+                                                      rebound: the caller's dict is the final value of x) *)
 
 (* ---- 2. state and outcomes -------------------------------------------------------------------- *)
 (* local variables (and the attributes of a device object): an association list, most recent binding first *)
@@ -267,6 +278,8 @@ Definition truth (v : value) : option bool :=
   | VNone => Some false
   | VBytes l => Some (match l with [] => false | _ :: _ => true end)
   | VList l => Some (match l with [] => false | _ :: _ => true end)
+  | VDict l => Some (match l with [] => false | _ :: _ => true end)
+  | VText l => Some (match l with [] => false | _ :: _ => true end)
   | _ => None
   end.
 
@@ -286,6 +299,43 @@ Fixpoint set_item (l : list value) (k : nat) (v : value) : option (list value) :
   | [], _ => None                                            (* IndexError *)
   | _ :: r, O => Some (v :: r)
   | x :: r, S k' => option_map (cons x) (set_item r k' v)
+  end.
+
+(* dicts: keys are ints or data strings *)
+Fixpoint text_eqb (a b : list N) : bool :=
+  match a, b with [], [] => true | x :: a', y :: b' => (x =? y) && text_eqb a' b' | _, _ => false end.
+Definition key_eqb (a b : value) : option bool :=
+  match a, b with
+  | VText x, VText y => Some (text_eqb x y)
+  | VText _, (VInt _ | VNeg _) | (VInt _ | VNeg _), VText _ => Some false
+  | _, _ => match int_Z a, int_Z b with Some x, Some y => Some (x =? y)%Z | _, _ => None end
+  end.
+Fixpoint dict_get (d : list (value * value)) (k : value) : option (option value) :=   (* None: Unsupported key; Some None: KeyError *)
+  match d with
+  | [] => match k with VText _ | VInt _ | VNeg _ => Some None | _ => None end
+  | (k', v) :: r => match key_eqb k' k with Some true => Some (Some v) | Some false => dict_get r k | None => None end
+  end.
+(* d[k] = v keeps the position of an existing key and appends a new one *)
+Fixpoint dict_set (d : list (value * value)) (k v : value) : option (list (value * value)) :=
+  match d with
+  | [] => match k with VText _ | VInt _ | VNeg _ => Some [(k, v)] | _ => None end
+  | (k', x) :: r =>
+    match key_eqb k' k with
+    | Some true => Some ((k', v) :: r)
+    | Some false => option_map (cons (k', x)) (dict_set r k v)
+    | None => None
+    end
+  end.
+(* s in l on data strings *)
+Fixpoint text_prefix (s l : list N) : bool :=
+  match s, l with [], _ => true | x :: s', y :: l' => (x =? y) && text_prefix s' l' | _ :: _, [] => false end.
+Fixpoint text_in (s l : list N) : bool :=
+  text_prefix s l || match l with [] => false | _ :: l' => text_in s l' end.
+Fixpoint join_texts (l : list value) : option (list N) :=
+  match l with
+  | [] => Some []
+  | VText x :: r => option_map (app x) (join_texts r)
+  | _ => None
   end.
 
 (* x[k]: IndexError outside the sequence *)
@@ -449,13 +499,18 @@ Fixpoint eval (en : env) (e : expr) (w : world) : eres :=
   | EField f => lift (lookup w.(w_dev).(d_self) f) w            (* an unset attribute (AttributeError) is Unsupported *)
   | EBytes l => EOk (VBytes l) w
   | EIndex a i => andthen (eval en a w) (fun va w1 => andthen (eval en i w1) (fun vi w2 =>
-        match vi with
-        | VInt k => match index va k with
-                    | Some (Some x) => EOk x w2
-                    | Some None => EExn XIndex w2
-                    | None => EUnsup
-                    end
-        | _ => EUnsup
+        match va, vi with
+        | VDict d, _ => match dict_get d vi with
+                        | Some (Some x) => EOk x w2
+                        | Some None => EExn XKeyError w2
+                        | None => EUnsup
+                        end
+        | _, VInt k => match index va k with
+                       | Some (Some x) => EOk x w2
+                       | Some None => EExn XIndex w2
+                       | None => EUnsup
+                       end
+        | _, _ => EUnsup
         end))
   | ESliceFrom a i => andthen (eval en a w) (fun va w1 => andthen (eval en i w1) (fun vi w2 =>
         match va, vi with
@@ -532,6 +587,23 @@ Fixpoint eval (en : env) (e : expr) (w : world) : eres :=
             else EExn XStruct w3                         (* pack expected n items for packing *)
           | _, _, _ => EUnsup
           end)))
+  | EIn a b => andthen (eval en a w) (fun va w1 => andthen (eval en b w1) (fun vb w2 =>
+        match vb, va with
+        | VDict d, _ => match dict_get d va with Some r => EOk (VBool (match r with Some _ => true | None => false end)) w2
+                                               | None => EUnsup end
+        | VText l, VText s => EOk (VBool (text_in s l)) w2
+        | _, _ => EUnsup
+        end))
+  | ETupleOf a => andthen (eval en a w) (fun va w1 =>
+        match va with
+        | VDict d => EOk (VList (map fst d)) w1
+        | VList l => EOk (VList l) w1
+        | _ => EUnsup
+        end)
+  | EReverse a => andthen (eval en a w) (fun va w1 => match va with VList l => EOk (VList (rev l)) w1 | _ => EUnsup end)
+  | ETextLit l => EOk (VText l) w
+  | EJoinText a => andthen (eval en a w) (fun va w1 =>
+        match va with VList l => lift (option_map VText (join_texts l)) w1 | _ => EUnsup end)
   end.
 
 (* run an expression inside a statement: a value continues, an exception becomes the statement's outcome *)
@@ -603,6 +675,12 @@ Fixpoint exec (s : stmt) (en : env) (w : world) : sres :=
                              l en w1
         | None => SUnsup
         end)
+  | SVarItemSet x k v =>
+        on_value en (eval en v w) (fun vv w1 => on_value en (eval en k w1) (fun vk w2 =>
+          match lookup en x with
+          | Some (VDict d) => match dict_set d vk vv with Some d' => SOk CNormal (bind en x (VDict d')) w2 | None => SUnsup end
+          | _ => SUnsup
+          end))
   | SContinue => SOk CContinue en w
   | SFieldItemSet f k v =>                         (* right-hand side first, then the subscript, as for SMemSet *)
         on_value en (eval en v w) (fun vv w1 => on_value en (eval en k w1) (fun vk w2 =>
@@ -646,10 +724,12 @@ Definition prim (cfg : config) (f : fname) (args : list value) (w : world) : opt
   | P_file_write, [VBytes b] =>
       Some (EOk (VInt (N.of_nat (length b)))
                 (with_dev w (mkdev w.(w_dev).(d_self) w.(w_dev).(d_stdin) (w.(w_dev).(d_stdout) ++ b))))
+  | P_print, [VText l] =>                                       (* print(s): the text and a newline on the output stream *)
+      Some (EOk VNone (with_dev w (mkdev w.(w_dev).(d_self) w.(w_dev).(d_stdin) (w.(w_dev).(d_stdout) ++ l ++ [10]))))
   | P_compress_data, [VBytes b] =>
       Some match cfg.(c_compress) b with Some z => EOk (VBytes z) w | None => EExn (XLib 0) w end
   | (P_io_read_bit | P_io_write_bit | P_register_op_address | P_register_op
-     | P_stdin_read | P_stdout_write | P_stdout_flush | P_file_open | P_file_write | P_compress_data), _ => Some EUnsup
+     | P_stdin_read | P_stdout_write | P_stdout_flush | P_file_open | P_file_write | P_compress_data | P_print), _ => Some EUnsup
   | _, _ => None
   end.
 
